@@ -68,6 +68,14 @@ def generate(rng, tier, idx):
         # give the update something to do
         sc['muts'] = GT.gen_mutations(rng, info, rng.choice([0, 1, 2]), allow_manifest=False, allow_retype=False)
         sc['hashes'] = rng.choice([['SHA256'], ['MD5', 'SHA1'], ['BLAKE2B', 'SHA512']])
+    if op in ('update', 'cli-update', 'cli-update-sub', 'cli-create') and rng.random() < 0.35:
+        # a Manifest file nothing refers to yet: the update scan opens and reads it (fault sites of their own)
+        mdirs_ = set(os.path.dirname(m['p']) for m in g['manifests'])
+        cand_ = [d for d in info['view_dirs'] if d and d not in mdirs_ and not any(c.startswith('.') for c in d.split('/'))]
+        if cand_:
+            ud = rng.choice(cand_)
+            sc['muts'] = list(sc['muts']) + [{'m': 'add', 'p': ud + '/' + rng.choice(['Manifest', 'Manifest', 'Manifest.gz']), 'k': 'file',
+                                              'c': rng.choice(['', 'DATA nothing-here 1\n'])}]
     nerr = len(ERRNOS) if tier == 'thorough' else 2
     sc['errnos'] = rng.sample(ERRNOS, nerr)
     # persistent unreadable object
